@@ -146,7 +146,8 @@ let () = register "cache" (fun args ->
               else if int_of_nat t >= 2000 then ()
               else dones := ("done:" ^ string_of_int (int_of_nat t)) :: !dones
           | ECb (_, c) -> (match tok_of_cb c with Some s -> cbs := s :: !cbs | None -> ())
-          | ECall _ -> ()) evs;
+          | ECall _ -> ()
+          | EMClear -> ()) evs;
         let extra = List.rev !cbs @ (match !rw with Some x -> [ x ] | None -> []) @ List.sort compare !dones in
         (* blocking calls print ok instead of the unit result *)
         String.concat " " (!res :: extra))
